@@ -1,8 +1,8 @@
 CONSTANTS
   Inits = {"fresh", "funded", "pendsend", "pendrecv", "done"}
-  MaxHist = 2
-  MaxGen = 2
-  HistOps <- HistOpsShort
+  MaxHist = 3
+  MaxGen = 3
+  HistOps <- HistOpsFull
   UseNode = TRUE
   UseClose = TRUE
 SPECIFICATION Spec
